@@ -17,11 +17,13 @@ import xtract  # noqa: E402
 REPO = os.environ.get('VERIF_REPO', '/repo')
 SPEC = os.path.join(HERE, 'spec')
 SHIM = os.path.join(HERE, 'shim')
-BUILD = os.path.join(HERE, 'build')
+BUILD_ROOT = os.path.join(HERE, 'build')
+BUILD = BUILD_ROOT   # replaced by a per-run directory in main() so that concurrent checks never share files
 EVID = os.path.join(HERE, 'evidence')
 REPLAY_OUT = os.path.join(HERE, 'replay_out')
 KNOWN = os.path.join(HERE, 'known-findings.txt')
 CORES = int(os.environ.get('VERIF_JOBS', '16'))
+MAX_VIOLATION_LINES = int(os.environ.get('VERIF_MAX_VIOLATION_LINES', '8'))
 
 DEFAULT_CHECKS = ['--bounds-check', '--pointer-check', '--div-by-zero-check', '--signed-overflow-check',
                   '--undefined-shift-check', '--pointer-primitive-check']
@@ -323,6 +325,7 @@ def asan_lib():
     """Build (once per driver run) a sanitized static library of /repo's current sources for replay programs."""
     if 'lib' in _ASANLIB:
         return _ASANLIB['lib']
+    os.makedirs(BUILD, exist_ok=True)
     d = os.path.join(BUILD, 'asanlib')
     shutil.rmtree(d, ignore_errors=True)
     os.makedirs(d)
@@ -357,6 +360,7 @@ def native_replay(u, witness, obligation, outdir):
     lib, flags, err = asan_lib()
     if not lib:
         return None, err
+    os.makedirs(BUILD, exist_ok=True)
     tmp = tempfile.mkdtemp(prefix='replay_', dir=BUILD)
     exe = os.path.join(tmp, rp)
     cmd = ['g++'] + flags + ['-I', os.path.join(HERE, 'replay'), src, lib, '-o', exe]
@@ -437,6 +441,7 @@ def handle_failure(pid, u, f, tier):
 # --------------------------------------------------------------------------------------
 
 def main():
+    global BUILD
     ap = argparse.ArgumentParser()
     ap.add_argument('pid')
     ap.add_argument('--tier', default=os.environ.get('VERIF_TIER', 'quick'))
@@ -444,6 +449,7 @@ def main():
     ap.add_argument('--list', action='store_true')
     ap.add_argument('--replay')
     ap.add_argument('--no-evidence', action='store_true')
+    ap.add_argument('--keep', action='store_true', help='keep the per-run build directory')
     a = ap.parse_args()
     tier = a.tier if a.tier in ('quick', 'thorough') else 'quick'
     pid = a.pid
@@ -456,6 +462,13 @@ def main():
         for u in units:
             print(u['name'], u.get('kind', 'proof'), u.get('enforce'), os.path.basename(u['_template']))
         return 0
+    BUILD = os.path.join(BUILD_ROOT, 'run_%s_%d' % (pid, os.getpid()))
+    shutil.rmtree(BUILD, ignore_errors=True)
+    os.makedirs(BUILD, exist_ok=True)
+    os.makedirs(EVID, exist_ok=True)
+    import atexit
+    if not a.keep:
+        atexit.register(lambda: shutil.rmtree(BUILD, ignore_errors=True))
     if a.replay:
         rec = json.load(open(a.replay))
         u = next((x for x in units_for(rec['property']) if x['name'] == rec['unit']), None)
@@ -472,8 +485,6 @@ def main():
     if not units:
         print('no units registered for', pid)
         return 2
-    os.makedirs(BUILD, exist_ok=True)
-    os.makedirs(EVID, exist_ok=True)
     t0 = time.time()
     results = []
     # longest first
@@ -508,6 +519,10 @@ def main():
     # a listed finding that no longer fails is only noted
     vio_records = []
     seen_units = set()
+    def _rank(t):
+        o = t[1]['obligation']
+        return (0 if re.search(r'postcondition|assertion|precondition', o) else 1 if re.search(r'loop_invariant|decreases|assigns', o) else 2, t[0]['name'], o)
+    violations.sort(key=_rank)
     for u, f in violations:
         # one replay per unit+description is enough
         key = (u['name'], f['description'])
@@ -516,7 +531,10 @@ def main():
         seen_units.add(key)
         path, confirmed = handle_failure(pid, u, f, tier)
         vio_records.append({'unit': u['name'], 'obligation': f['obligation'], 'description': f['description'], 'replay': path, 'confirmed': confirmed})
-        print('VIOLATION property=%s replay=%s unit=%s obligation=%s (%s)%s' % (pid, path, u['name'], f['obligation'], f['description'][:120], '' if confirmed else ' no-failing-input-found'))
+        if len(vio_records) <= MAX_VIOLATION_LINES:
+            print('VIOLATION property=%s replay=%s unit=%s obligation=%s (%s)%s' % (pid, path, u['name'], f['obligation'], f['description'][:120], '' if confirmed else ' no-failing-input-found'))
+    if len(vio_records) > MAX_VIOLATION_LINES:
+        print('... and %d more violated obligations (all listed in the evidence file and under %s)' % (len(vio_records) - MAX_VIOLATION_LINES, os.path.join(REPLAY_OUT, pid)))
     wall = time.time() - t0
     # ---------------- evidence
     proof_units = [(u, r) for u, r in results if r.get('kind', 'proof') == 'proof']
